@@ -118,6 +118,63 @@ func runC09(c *Ctx) {
 			r.Bad("C09.R1", FuncID(fn), "field", p.Pos(fn.Pos()), "decodeLimit no longer returns the stream's DecodeLimit field")
 		}
 	}
+	// (a') a copy of a stream dict keeps its limit: StreamDict.Clone either copies the whole struct or the DecodeLimit field
+	if fn := p.Func("pkg/pdfcpu/types.(StreamDict).Clone"); fn == nil {
+		r.Bad("C09.R1", "pkg/pdfcpu/types.(StreamDict).Clone", "anchor", "", "UNRESOLVED-ANCHOR")
+	} else {
+		recv := fn.Params[0]
+		fromRecv := func(v ssa.Value) bool {
+			if v == ssa.Value(recv) {
+				return true
+			}
+			if ld, ok := v.(*ssa.UnOp); ok && ld.Op == token.MUL {
+				if al, ok := ld.X.(*ssa.Alloc); ok {
+					for _, rf := range *al.Referrers() {
+						if st, ok := rf.(*ssa.Store); ok && st.Addr == ssa.Value(al) && st.Val == ssa.Value(recv) {
+							return true
+						}
+					}
+				}
+			}
+			return false
+		}
+		// the cell(s) whose content is returned
+		resultCells := map[ssa.Value]bool{}
+		for _, ret := range returnsOf(fn) {
+			for _, rv := range ret.Results {
+				v := rv
+				if mi, ok := v.(*ssa.MakeInterface); ok {
+					v = mi.X
+				}
+				if ld, ok := v.(*ssa.UnOp); ok && ld.Op == token.MUL {
+					resultCells[ld.X] = true
+				}
+			}
+		}
+		keeps := false
+		eachInstr(fn, func(_ *ssa.BasicBlock, _ int, i ssa.Instruction) {
+			st, ok := i.(*ssa.Store)
+			if !ok {
+				return
+			}
+			// whole-struct copy: store of the receiver value into the returned StreamDict cell
+			if typeNameOf(st.Val.Type()) == "StreamDict" && fromRecv(st.Val) && resultCells[st.Addr] {
+				keeps = true
+			}
+			if fa, ok := st.Addr.(*ssa.FieldAddr); ok && !resultCells[fa.X] {
+				return
+			}
+			// explicit field copy
+			if strings.HasSuffix(fieldPath(st.Addr), "DecodeLimit") && strings.HasSuffix(fieldPath(st.Val), "DecodeLimit") {
+				keeps = true
+			}
+		})
+		if keeps {
+			r.OK("C09.R1", FuncID(fn), "clone keeps limit", p.Pos(fn.Pos()), "the clone is a whole-struct copy of the receiver (or copies DecodeLimit explicitly)", true)
+		} else {
+			r.Bad("C09.R1", FuncID(fn), "clone keeps limit", p.Pos(fn.Pos()), "the cloned stream dict does not inherit DecodeLimit: a stream migrated into another context (AddPages, merge, stamp) decodes under the 512 MiB package default instead of the configured Limits.MaxDecodeBytes")
+		}
+	}
 	// (b) reader sets the limit on every parsed stream dict
 	nsd := 0
 	for _, fn := range p.Funcs {
@@ -233,6 +290,7 @@ func runC09(c *Ctx) {
 			return ok && strings.HasSuffix(fieldPath(st.Addr), "Raw")
 		}, Desc: "sd.Raw = …"}, Why: "encoded stream bytes are stored without having been read through the MaxStreamBytes-bounded reader"}},
 	})
+	checkBoundedGrowth(c)
 	// ---- R4
 	checkLimitLiveness(c)
 	checkLoopAccumulators(c)
@@ -611,5 +669,108 @@ func checkLoopAccumulators(c *Ctx) {
 	}
 	if n == 0 {
 		r.Bad("C09.R4", "pkg", "anchor:accumulators", "", "UNRESOLVED-ANCHOR: no `limit - running total` comparison inside a loop found")
+	}
+}
+
+// c09BoundedGrowers: readers that grow a buffer step by step under a byte limit; the size argument (index) of every growth call
+// must be clamped by the limit (first step) or by what is left of it (later steps), so that the buffer can never pass the limit
+// even when the terminating marker arrives in the last step.
+var c09BoundedGrowers = map[string]struct {
+	grow string
+	arg  int
+}{
+	"pkg/pdfcpu.readStreamContentBlindly": {"pkg/pdfcpu.growBufBy", 1},
+}
+
+func limitDerived(v ssa.Value, d int) bool {
+	if v == nil || d > 6 {
+		return false
+	}
+	if limitOrigin(v, 0) {
+		return true
+	}
+	switch x := v.(type) {
+	case *ssa.Convert:
+		return limitDerived(x.X, d+1)
+	case *ssa.ChangeType:
+		return limitDerived(x.X, d+1)
+	case *ssa.BinOp:
+		if x.Op == token.SUB {
+			return limitDerived(x.X, d+1) // limit - used
+		}
+	}
+	return false
+}
+
+// clampedByLimit: v = min(x, limit-derived) as a builtin, or a phi that takes a limit-derived value on the branch of a
+// comparison against that limit-derived value.
+func clampedByLimit(v ssa.Value) bool {
+	switch x := v.(type) {
+	case *ssa.Call:
+		if b, ok := x.Call.Value.(*ssa.Builtin); ok && b.Name() == "min" {
+			for _, a := range x.Call.Args {
+				if limitDerived(a, 0) {
+					return true
+				}
+			}
+		}
+	case *ssa.Phi:
+		for k, e := range x.Edges {
+			if !limitDerived(e, 0) {
+				continue
+			}
+			// the edge comes (directly or through an empty block) from an If comparing against a limit-derived value
+			pred := x.Block().Preds[k]
+			for hops := 0; hops < 2 && pred != nil; hops++ {
+				if len(pred.Preds) == 1 {
+					if iff, ok := pred.Preds[0].Instrs[len(pred.Preds[0].Instrs)-1].(*ssa.If); ok {
+						if cmp, ok := iff.Cond.(*ssa.BinOp); ok && (limitDerived(cmp.X, 0) || limitDerived(cmp.Y, 0)) {
+							return true
+						}
+					}
+				}
+				if iff, ok := pred.Instrs[len(pred.Instrs)-1].(*ssa.If); ok {
+					if cmp, ok := iff.Cond.(*ssa.BinOp); ok && (limitDerived(cmp.X, 0) || limitDerived(cmp.Y, 0)) {
+						return true
+					}
+				}
+				if len(pred.Preds) != 1 {
+					break
+				}
+				pred = pred.Preds[0]
+			}
+		}
+	}
+	return false
+}
+
+func checkBoundedGrowth(c *Ctx) {
+	p, r := c.P, c.R
+	for fid, spec := range c09BoundedGrowers {
+		fn := p.Func(fid)
+		if fn == nil {
+			r.Bad("C09.R3", fid, "bounded growth", "", "UNRESOLVED-ANCHOR")
+			continue
+		}
+		n := 0
+		eachInstr(fn, func(_ *ssa.BasicBlock, _ int, i ssa.Instruction) {
+			call, ok := i.(*ssa.Call)
+			if !ok {
+				return
+			}
+			if _, ref := callRef(call); ref != spec.grow || len(call.Call.Args) <= spec.arg {
+				return
+			}
+			n++
+			construct := fmt.Sprintf("growth step#%d", n)
+			if clampedByLimit(call.Call.Args[spec.arg]) {
+				r.OK("C09.R3", fid, construct, p.Pos(call.Pos()), "the step size is clamped by the limit / by what is left of it", true)
+			} else {
+				r.Bad("C09.R3", fid, construct, p.Pos(call.Pos()), "the buffer grows by a step that is not clamped by the remaining budget: the last step can carry the buffer past MaxStreamBytes, and if the end marker lies in the overshoot an encoded stream larger than the limit is returned")
+			}
+		})
+		if n == 0 {
+			r.Bad("C09.R3", fid, "bounded growth", p.Pos(fn.Pos()), "UNRESOLVED-ANCHOR: no call of "+spec.grow)
+		}
 	}
 }
